@@ -360,7 +360,7 @@ def check_fsarray_ctor(acc):
     for n in range(0, 3):
         for rows in itertools.product(texts, repeat=n):
             for width in (None, 0, 1, 2, 3, 4):
-                for kind in ("str", "fmt", "str+bg"):
+                for kind in ("str", "fmt", "str+bg", "generator", "tuple"):
                     case = {"fsarray": list(rows), "width": width, "kind": kind}
                     acc.case(n > 0, key=("ctor", rows, width, kind), sample=case)
                     acc.transitions += 1
@@ -368,9 +368,13 @@ def check_fsarray_ctor(acc):
                         vals = [fmtstr(t, "red") for t in rows]
                         want = [[(c, RED) for c in t] for t in rows]
                         kw = {}
-                    elif kind == "str":
+                    elif kind in ("str", "generator", "tuple"):
                         vals, kw = list(rows), {}
                         want = [[(c, ()) for c in t] for t in rows]
+                        if kind == "generator":
+                            vals = (t for t in rows)  # one-shot iterable (the documentation passes generators to fsarray)
+                        elif kind == "tuple":
+                            vals = tuple(rows)
                     else:
                         vals, kw = list(rows), {"bg": "blue"}
                         want = [[(c, (("bg", 44),)) for c in t] for t in rows]
@@ -392,6 +396,41 @@ def check_fsarray_ctor(acc):
                         acc.failure("C04:fsarray_result", case, "shape %r rows %r" % (a.shape, [C.cells(r) for r in a.rows]))
                         continue
                     check_reads(acc, a, want, W, case)
+
+
+def check_zero_width(acc):
+    """Rows whose surplus over the region / array edge consists of zero-width characters are still too long by cell count."""
+    from curtsies.formatstring import fmtstr
+    from curtsies.formatstringarray import FSArray
+
+    for W in (2, 3, 4):
+        for text in ("x\u0301", "xy\u0301", "\u0301", "xyz\u200d", "x\u200f\u0301"):
+            for c0 in range(0, W + 1):
+                for c1 in range(c0 + 1, W + 1):
+                    for pre in ("", "ab"[: W]):
+                        a = FSArray(1, W)
+                        if pre:
+                            a[0:1, 0 : len(pre)] = [pre]
+                        grid = grid_of(a)
+                        case = {"width": W, "prefilled": pre, "cols": [c0, c1], "block": [text]}
+                        acc.case(True, key=("zw", W, text, c0, c1, pre), sample=case)
+                        acc.transitions += 1
+                        v = [(ch, ()) for ch in text]
+                        kind_exp, g, free = expected(grid, W, 0, 1, c0, c1, [v])
+                        try:
+                            a[0:1, c0:c1] = [fmtstr(text)]
+                            raised = False
+                        except Exception:  # noqa
+                            raised = True
+                        now = grid_of(a)
+                        if any(len(r) > W for r in now):
+                            acc.failure("C04:row_wider_than_array", case, "rows %r" % (now,))
+                        elif kind_exp == "error" and not raised:
+                            acc.failure("C04:invalid_assignment_accepted", case, "rows %r" % (now,))
+                        elif kind_exp == "error" and [strip(r) for r in now] != [strip(r) for r in grid]:
+                            acc.failure("C04:failed_assignment_changed_cells", case, "")
+                        elif kind_exp == "ok" and raised:
+                            acc.failure("C04:valid_assignment_raises", case, "")
 
 
 def run(ctx):
@@ -433,6 +472,9 @@ def run(ctx):
     acc = Acc(seed=ctx.seed)
     check_fsarray_ctor(acc)
     rep.merge(acc, "fsarray_constructor")
+    acc = Acc(seed=ctx.seed)
+    check_zero_width(acc)
+    rep.merge(acc, "zero_width_characters")
     rep.exhaustive = not rep.extra.get("depth3_frontier_subsampled")
     rep.rule = (
         "BFS from FSArray(r,c) for r in 0..2, c in 0..%d (+ 1x3 quick, 1x4 thorough; with/without constructor formatting) over the menu: a[r0:r1,c0:c1]=block for every "
